@@ -154,6 +154,16 @@ func c11Case(ctx *genCtx, ts *tape.Set, dir string) *genResult {
 	}
 	base := filepath.Join(dir, "base")
 	res := &genResult{Sample: map[string]any{}}
+	// one case in three runs under a customised prefix map: clash detection,
+	// renaming and the reserved names must follow the prefixes in force
+	var pflags []string
+	if mt.Intn(3) == 0 {
+		w.DrawPrefixes(ts.Fork("prefix"))
+		pflags = w.PrefixFlags()
+		if len(pflags) > 0 {
+			res.probe("world.prefix_flags")
+		}
+	}
 	// prior state: derived.gen.go generated for an earlier, clash-free version
 	// of the sources (the user adds the clashing call to a generated package)
 	prior := mt.Bool()
@@ -166,7 +176,7 @@ func c11Case(ctx *genCtx, ts *tape.Set, dir string) *genResult {
 		}
 		earlier = w.Render()
 		writeWorld(base, earlier)
-		r := runGoderive(ctx.bins.inst, base, []string{"./p"}, &Plan{MapMode: "identity"}, 0)
+		r := runGoderive(ctx.bins.inst, base, append(append([]string{}, pflags...), "./p"), &Plan{MapMode: "identity"}, 0)
 		res.count(r)
 		if r.Exit == 0 {
 			res.probe("prior_derived_file_present")
@@ -204,7 +214,7 @@ func c11Case(ctx *genCtx, ts *tape.Set, dir string) *genResult {
 	}
 	files := w.Render()
 	writeWorld(base, files)
-	res.Sample = map[string]any{"files": userSources(files), "profile": profile, "conflicts": conflicts, "duplicates": dups, "injected": did, "earlier_version_generated_first": prior}
+	res.Sample = map[string]any{"files": userSources(files), "profile": profile, "conflicts": conflicts, "duplicates": dups, "injected": did, "earlier_version_generated_first": prior, "prefix_flags": pflags}
 	if prior {
 		res.Sample["earlier_files"] = userSources(earlier)
 	}
@@ -231,10 +241,10 @@ func c11Case(ctx *genCtx, ts *tape.Set, dir string) *genResult {
 		for pi, plan := range plans {
 			vd := filepath.Join(dir, fmt.Sprintf("c%d_%d", ci, pi))
 			copyTree(base, vd, nil)
-			r := runGoderive(ctx.bins.inst, vd, append(append([]string{}, flags...), "./p"), plan, 0)
+			r := runGoderive(ctx.bins.inst, vd, append(append(append([]string{}, pflags...), flags...), "./p"), plan, 0)
 			res.count(r)
 			exits[pi] = r.Exit
-			facts := map[string]string{"stderr": r.Stderr, "flags": strings.Join(flags, " "), "sources": joinFiles(userSources(files)), "profile": profile}
+			facts := map[string]string{"stderr": r.Stderr, "flags": strings.Join(append(append([]string{}, pflags...), flags...), " "), "sources": joinFiles(userSources(files)), "profile": profile}
 			fail := func(clause, detail string) {
 				if res.V == nil {
 					res.V = &genViolation{Clause: clause, Detail: fmt.Sprintf("flags %v, conflicts %v, duplicates %v: %s", flags, conflicts, dups, detail), Facts: facts}
